@@ -67,6 +67,16 @@ impl DateTime {
     pub fn timezone_short_name(&self) -> String {
         timezone_short_name(&self.value)
     }
+
+    /// False for a timestamp so close to the edge of the supported range that its local time
+    /// (UTC plus the zone's offset) can't be represented, hence can't be written as text.
+    pub(crate) fn has_local_time(&self) -> bool {
+        use chrono::Offset;
+        self.value
+            .naive_utc()
+            .checked_add_offset(self.value.offset().fix())
+            .is_some()
+    }
 }
 
 impl PartialOrd for DateTime {
